@@ -218,6 +218,8 @@ struct CallerState
   std::size_t nextAttempt = 0;
   std::vector<SessionId> sidsThisCall;
   bool syncRefusedThisCall = false;
+  std::chrono::nanoseconds hookTime{0}; // time this call spent inside the fake's connect()/close() hooks (waiting
+                                        // for the scripted I/O thread): engine time, not the transport's waiting
   std::vector<std::function<void()>> afterReturn; // deferred posts
 };
 
@@ -286,6 +288,12 @@ void installHooks(SchedWorld &w)
   {
     if (tlCaller == ~std::size_t(0)) return;
     auto &st = w.cs[tlCaller];
+    struct HookTimer
+    {
+      CallerState &st;
+      Clock::time_point b = Clock::now();
+      ~HookTimer() { st.hookTime += Clock::now() - b; }
+    } hookTimer{st};
     auto &pl = w.plan.callers[tlCaller];
     Attempt a; // default when the script is exhausted: nothing happens (black hole)
     a.timeoutMs = 0;
@@ -338,6 +346,12 @@ void installHooks(SchedWorld &w)
       return;
     }
     auto &st = w.cs[tlCaller];
+    struct HookTimer
+    {
+      CallerState &st;
+      Clock::time_point b = Clock::now();
+      ~HookTimer() { st.hookTime += Clock::now() - b; }
+    } hookTimer{st};
     const Attempt &a = info.script;
     bool hasEvent = (a.outcome == OutConnect || a.outcome == OutFail) && !info.outcomePosted;
     if (hasEvent && a.phase == PhInClose)
@@ -454,9 +468,14 @@ void judgeCall(SchedWorld &w, std::size_t ci, const net::ConnectResult &r, std::
       return;
     }
   }
-  if (elapsed > timeout + kSlack)
+  // the transport's own waiting: time inside the fake engine's connect()/close() (where the caller waits
+  // for the scripted I/O thread) is the engine's, not the transport's
+  auto own = elapsed - st.hookTime;
+  if (own > timeout + kSlack)
     w.fail("C04/returned-late", who + " returned after " +
-                                  std::to_string(std::chrono::duration_cast<std::chrono::milliseconds>(elapsed).count()) + " ms",
+                                  std::to_string(std::chrono::duration_cast<std::chrono::milliseconds>(elapsed).count()) + " ms (" +
+                                  std::to_string(std::chrono::duration_cast<std::chrono::milliseconds>(st.hookTime).count()) +
+                                  " ms of it inside the scripted engine)",
            true);
 }
 
@@ -497,6 +516,7 @@ void runSched(pbt::Case &c, const SchedPlan &plan)
       {
         st.sidsThisCall.clear();
         st.syncRefusedThisCall = false;
+        st.hookTime = std::chrono::nanoseconds{0};
         auto timeout = std::chrono::milliseconds(cp.totalTimeoutMs);
         auto b = Clock::now();
         auto r = w.tr->connectSyncCancellable("192.0.2.1", 5060, *tokens[ci], net::TlsMode::None, timeout);
@@ -513,6 +533,7 @@ void runSched(pbt::Case &c, const SchedPlan &plan)
         {
           st.sidsThisCall.clear();
           st.syncRefusedThisCall = false;
+          st.hookTime = std::chrono::nanoseconds{0};
           if (st.nextAttempt >= cp.attempts.size()) break;
           auto timeout = std::chrono::milliseconds(cp.attempts[st.nextAttempt].timeoutMs);
           auto b = Clock::now();
@@ -739,27 +760,67 @@ const char *tgName(int k)
   return n[k];
 }
 
-int mkSocket()
+// The listening sockets live for the whole process (one set per shard): binding fresh ports for
+// every case would exhaust the ephemeral range through TIME_WAIT in long runs. Nothing else is
+// shared between cases: the accept queues are drained at the start of a case and every accepted
+// connection is reset at its end.
+struct RawListeners
 {
-  int fd = ::socket(AF_INET, SOCK_STREAM | SOCK_CLOEXEC, 0);
-  if (fd < 0) throw std::runtime_error("socket() failed");
-  return fd;
-}
-std::uint16_t bindLoopback(int fd)
+  bool ok = false;
+  int acceptFd = -1, rstFd = -1, refuseFd = -1, holeFd = -1, holeFiller = -1;
+  std::uint16_t acceptPort = 0, rstPort = 0, refusePort = 0, holePort = 0;
+};
+bool bindLoopback(int fd, std::uint16_t &port)
 {
   sockaddr_in a{};
   a.sin_family = AF_INET;
   a.sin_addr.s_addr = htonl(INADDR_LOOPBACK);
   a.sin_port = 0;
-  if (::bind(fd, reinterpret_cast<sockaddr *>(&a), sizeof a) != 0) throw std::runtime_error("bind() failed");
+  if (fd < 0 || ::bind(fd, reinterpret_cast<sockaddr *>(&a), sizeof a) != 0) return false;
   socklen_t l = sizeof a;
-  ::getsockname(fd, reinterpret_cast<sockaddr *>(&a), &l);
-  return ntohs(a.sin_port);
+  if (::getsockname(fd, reinterpret_cast<sockaddr *>(&a), &l) != 0) return false;
+  port = ntohs(a.sin_port);
+  return true;
+}
+RawListeners makeListeners()
+{
+  RawListeners L;
+  auto mk = [] { return ::socket(AF_INET, SOCK_STREAM | SOCK_CLOEXEC, 0); };
+  L.acceptFd = mk();
+  L.rstFd = mk();
+  L.refuseFd = mk();
+  L.holeFd = mk();
+  L.holeFiller = mk();
+  if (!bindLoopback(L.acceptFd, L.acceptPort) || ::listen(L.acceptFd, 1024) != 0) return L;
+  if (!bindLoopback(L.rstFd, L.rstPort) || ::listen(L.rstFd, 1024) != 0) return L;
+  if (!bindLoopback(L.refuseFd, L.refusePort)) return L; // bound, never listen(): the kernel refuses
+  if (!bindLoopback(L.holeFd, L.holePort) || ::listen(L.holeFd, 0) != 0) return L;
+  sockaddr_in a{};
+  a.sin_family = AF_INET;
+  a.sin_addr.s_addr = htonl(INADDR_LOOPBACK);
+  a.sin_port = htons(L.holePort);
+  // fills the single accept-queue slot of the backlog-0 listener; never accepted
+  if (L.holeFiller < 0 || ::connect(L.holeFiller, reinterpret_cast<sockaddr *>(&a), sizeof a) != 0) return L;
+  ::fcntl(L.acceptFd, F_SETFL, O_NONBLOCK);
+  ::fcntl(L.rstFd, F_SETFL, O_NONBLOCK);
+  L.ok = true;
+  return L;
+}
+RawListeners &listeners()
+{
+  static RawListeners L = makeListeners();
+  return L;
+}
+void resetClose(int fd)
+{
+  linger lg{1, 0};
+  ::setsockopt(fd, SOL_SOCKET, SO_LINGER, &lg, sizeof lg);
+  ::close(fd); // RST, no TIME_WAIT
 }
 
 struct RawPeers
 {
-  int acceptFd = -1, rstFd = -1, refuseFd = -1, holeFd = -1, holeFiller = -1;
+  int acceptFd = -1, rstFd = -1;
   std::uint16_t acceptPort = 0, rstPort = 0, refusePort = 0, holePort = 0;
   struct Conn
   {
@@ -776,34 +837,28 @@ struct RawPeers
 
   RawPeers()
   {
-    acceptFd = mkSocket();
-    acceptPort = bindLoopback(acceptFd);
-    ::listen(acceptFd, 256);
-    rstFd = mkSocket();
-    rstPort = bindLoopback(rstFd);
-    ::listen(rstFd, 256);
-    refuseFd = mkSocket();
-    refusePort = bindLoopback(refuseFd); // never listen()
-    holeFd = mkSocket();
-    holePort = bindLoopback(holeFd);
-    ::listen(holeFd, 0);
-    holeFiller = mkSocket(); // fills the single accept-queue slot; never accepted
-    sockaddr_in a{};
-    a.sin_family = AF_INET;
-    a.sin_addr.s_addr = htonl(INADDR_LOOPBACK);
-    a.sin_port = htons(holePort);
-    if (::connect(holeFiller, reinterpret_cast<sockaddr *>(&a), sizeof a) != 0) throw std::runtime_error("filler connect failed");
-    ::fcntl(acceptFd, F_SETFL, O_NONBLOCK);
-    ::fcntl(rstFd, F_SETFL, O_NONBLOCK);
+    RawListeners &L = listeners();
+    acceptFd = L.acceptFd;
+    rstFd = L.rstFd;
+    acceptPort = L.acceptPort;
+    rstPort = L.rstPort;
+    refusePort = L.refusePort;
+    holePort = L.holePort;
+    // leftovers of the previous case (connections that completed after it had finished)
+    for (int lfd : {acceptFd, rstFd})
+      for (;;)
+      {
+        int fd = ::accept4(lfd, nullptr, nullptr, SOCK_CLOEXEC);
+        if (fd < 0) break;
+        resetClose(fd);
+      }
     th = std::thread([this] { run(); });
   }
   ~RawPeers()
   {
     quit.store(true);
     if (th.joinable()) th.join();
-    for (auto &c : conns) ::close(c.fd);
-    for (int fd : {acceptFd, rstFd, refuseFd, holeFd, holeFiller})
-      if (fd >= 0) ::close(fd);
+    for (auto &c : conns) resetClose(c.fd);
   }
   void run()
   {
@@ -831,9 +886,7 @@ struct RawPeers
       {
         int fd = ::accept4(rstFd, nullptr, nullptr, SOCK_CLOEXEC);
         if (fd < 0) break;
-        linger lg{1, 0};
-        ::setsockopt(fd, SOL_SOCKET, SO_LINGER, &lg, sizeof lg);
-        ::close(fd); // RST
+        resetClose(fd); // RST
         std::lock_guard<std::mutex> lk(mu);
         ++rstAccepted;
       }
@@ -896,6 +949,11 @@ void runReal(pbt::Case &c, const RealPlan &plan)
   pbt::watchdog(120, "C04/connectSync-did-not-return");
   quietLogs();
   c.describe(describe(plan));
+  if (!listeners().ok)
+  {
+    c.inconclusive("raw listener setup failed");
+    return;
+  }
   RawPeers peers;
   GlobalLog glog;
   net::TransportConfig cfg;
